@@ -134,7 +134,7 @@ def harnesses(tier, seed):
             light.append(h("collect_into_split", ty, 3, 2, 1, [1, 0, 1], (1, 1, 1)))
             light.append(h("collect_vec", ty, 2, 1, 1, None, (1, 1)))
             for term in ("find", "first", "count", "reduce", "for_each"):
-                for (n, t, c) in ((3, 2, 1), (3, 2, 2), (4, 2, 1)):
+                for (n, t, c) in (((3, 2, 1), (3, 2, 2), (4, 2, 1)) if ty not in ("FL", "FLF") else ((3, 2, 1),)):
                     heavy.append(h(term, ty, n, t, c, "sym", tuple([1] * n)))
         for term in ("find", "first"):
             for c in (1, 2):
